@@ -154,12 +154,13 @@ func (h *Handler) Handle(down *layer4.Connection, _ layer4.Handler) error {
 
 	start := time.Now()
 
+	var upstream *Upstream
 	var upConns []net.Conn
 	var proxyErr error
 
 	for {
 		// choose an available upstream
-		upstream := h.LoadBalancing.SelectionPolicy.Select(h.Upstreams, down)
+		upstream = h.LoadBalancing.SelectionPolicy.Select(h.Upstreams, down)
 		if upstream == nil {
 			if proxyErr == nil {
 				proxyErr = fmt.Errorf("no upstreams available")
@@ -183,10 +184,19 @@ func (h *Handler) Handle(down *layer4.Connection, _ layer4.Handler) error {
 		break
 	}
 
+	// account for the connections on every peer of the upstream while
+	// they are open, so that max_connections and least_conn see them
+	for _, p := range upstream.peers {
+		_ = p.countConn(1)
+	}
+
 	// make sure upstream connections all get closed
 	defer func() {
 		for _, conn := range upConns {
 			_ = conn.Close()
+		}
+		for _, p := range upstream.peers {
+			_ = p.countConn(-1)
 		}
 	}()
 
